@@ -22,6 +22,7 @@ CONFIGS_QUICK = ["dir"]
 def run(ctx):
     CH.write_rules(ctx, "C08.R1", "C08.R2")
     CH.ctor_cap_positive(ctx, "C08.R2.ctor")
+    CH.shared_initial_state(ctx, "C08.R3.init")
     CH.critical_sections_panic_free(ctx, "C08.R2.lock")
     CH.publish_rules(ctx, "C08.R3", "C08.R6", "C08.R7")
     CH.reader_consume(ctx, "C08.R4")
